@@ -9,14 +9,14 @@ def sizeOf (mode : Nat) (stat : Stat) (links : List (Name × Lnk)) : Int :=
 
 /-- **the documented rule**: sharded iff switching is enabled and (estimated size above the threshold,
 unless size estimation is disabled, or more links than the link limit) -/
-def Rule (g : Globals) (s : Settings) (links : List (Name × Lnk)) : Prop :=
-  s.effThr g ≠ 0 ∧ ((s.effMode g ≠ 2 ∧ sizeOf (s.effMode g) s.stat links > s.effThr g) ∨
+def Rule (g : Globals) (s : Settings) (stat : Stat) (links : List (Name × Lnk)) : Prop :=
+  s.effThr g ≠ 0 ∧ ((s.effMode g ≠ 2 ∧ sizeOf (s.effMode g) stat links > s.effThr g) ∨
     (s.maxLinks > 0 ∧ (links.length : Int) > s.maxLinks))
 
 /-- exact bookkeeping of a basic directory -/
 def BasicExact (g : Globals) (b : Basic) : Prop :=
   (b.links.map (·.1)).Nodup ∧ b.total = b.links.length ∧
-  b.est = (if b.s.effMode g = 2 then 0 else sizeOf (b.s.effMode g) b.s.stat b.links) ∧
+  b.est = (if b.s.effMode g = 2 then 0 else sizeOf (b.s.effMode g) b.nodeStat b.links) ∧
   (b.s.maxLinks > 0 → b.total ≤ b.s.maxLinks)
 
 theorem linkSizeIn_nonneg (mode nlen : Nat) (l : Lnk) : 0 ≤ linkSizeIn mode nlen l := by
@@ -74,7 +74,7 @@ theorem sizeOf_append (mode : Nat) (stat : Stat) (xs : List (Name × Lnk)) (n : 
 /-- **basic → HAMT is exact**: with exact bookkeeping, `needsToSwitchToHAMTDir` answers the documented
 rule evaluated on the entry list the operation produces -/
 theorem needsHamt_iff_rule (g : Globals) (b : Basic) (n : Name) (l : Lnk) (hx : BasicExact g b) :
-    needsHamt g b n l = true ↔ Rule g b.s (b.links.filter (·.1 ≠ n) ++ [(n, l)]) := by
+    needsHamt g b n l = true ↔ Rule g b.s b.nodeStat (b.links.filter (·.1 ≠ n) ++ [(n, l)]) := by
   obtain ⟨hn, ht, he, hml⟩ := hx
   unfold needsHamt Rule
   by_cases hthr : b.s.effThr g = 0
@@ -131,9 +131,9 @@ theorem sizeOf_nonneg (mode : Nat) (stat : Stat) (links : List (Name × Lnk)) : 
 /-- `addLinkChild` keeps the bookkeeping exact -/
 theorem addLink_exact (g : Globals) (b : Basic) (n : Name) (l : Lnk) (hx : BasicExact g b) (hm : b.s.effMode g ≤ 2) :
     match Basic.addLink g b n l with
-    | .ok b' => b'.links = b.links.filter (·.1 ≠ n) ++ [(n, l)] ∧ b'.s = b.s ∧ (b'.links.map (·.1)).Nodup ∧
-        b'.total = b'.links.length ∧
-        b'.est = (if b.s.effMode g = 2 then 0 else sizeOf (b.s.effMode g) b.s.stat b'.links)
+    | .ok b' => b'.links = b.links.filter (·.1 ≠ n) ++ [(n, l)] ∧ b'.s = b.s ∧ b'.nodeStat = b.nodeStat ∧
+        (b'.links.map (·.1)).Nodup ∧ b'.total = b'.links.length ∧
+        b'.est = (if b.s.effMode g = 2 then 0 else sizeOf (b.s.effMode g) b.nodeStat b'.links)
     | .maxlinks => b.getLink n = none ∧ b.s.maxLinks > 0 ∧ b.total + 1 > b.s.maxLinks := by
   obtain ⟨hn, ht, he, hml⟩ := hx
   have hdelta : ∀ (b1 : Basic) (k : Name) (x : Lnk), b1.s = b.s →
@@ -152,7 +152,7 @@ theorem addLink_exact (g : Globals) (b : Basic) (n : Name) (l : Lnk) (hx : Basic
     by_cases hfull : b.s.maxLinks > 0 ∧ b.total + 1 > b.s.maxLinks
     · simp only [hfull, and_self, if_true]
     · simp only [hfull, if_false]
-      refine ⟨by rw [hf], by trivial, ?_, ?_, ?_⟩
+      refine ⟨by rw [hf], by trivial, by trivial, ?_, ?_, ?_⟩
       · have := nodup_filter_append b.links hn n l; rwa [hf] at this
       · simp only [List.length_append, List.length_cons, List.length_nil, ht]; omega
       · rw [hdelta b n l rfl, he]
@@ -170,11 +170,11 @@ theorem addLink_exact (g : Globals) (b : Basic) (n : Name) (l : Lnk) (hx : Basic
       · simp only [h2, if_false, sizeOf]
         have := sum_nonneg (b.s.effMode g) (b.links.filter (·.1 ≠ n))
         simp only [ne_eq] at this
-        have hd : (0 : Int) ≤ (if b.s.effMode g = 1 then ((dataFieldSize b.s.stat : Nat) : Int) else 0) := by
+        have hd : (0 : Int) ≤ (if b.s.effMode g = 1 then ((dataFieldSize b.nodeStat : Nat) : Int) else 0) := by
           split <;> simp
         omega
     simp only [hest, if_false]
-    refine ⟨by trivial, by trivial, nodup_filter_append b.links hn n l, ?_, ?_⟩
+    refine ⟨by trivial, by trivial, by trivial, nodup_filter_append b.links hn n l, ?_, ?_⟩
     · simp only [List.length_append, List.length_cons, List.length_nil, ht, ne_eq]; omega
     · rw [hdelta _ n l (by rfl), hdelta b n lo rfl, he]
       by_cases h2 : b.s.effMode g = 2
@@ -188,14 +188,14 @@ theorem addLink_exact (g : Globals) (b : Basic) (n : Name) (l : Lnk) (hx : Basic
 /-- one AddChild on an auto-switching directory that is currently basic with exact bookkeeping -/
 theorem rule_step (h : Name → List Byte) (g : Globals) (b : Basic) (n : Name) (l : Lnk)
     (hx : BasicExact g b) (hm : b.s.effMode g ≤ 2) :
-    (Rule g b.s (b.links.filter (·.1 ≠ n) ++ [(n, l)]) →
+    (Rule g b.s b.nodeStat (b.links.filter (·.1 ≠ n) ++ [(n, l)]) →
       (∃ hd, (addChild h g { dyn := true, dir := .basic b } n l).1.dir = .hamt hd) ∨
       ((addChild h g { dyn := true, dir := .basic b } n l).1 = { dyn := true, dir := .basic b } ∧
         (addChild h g { dyn := true, dir := .basic b } n l).2 ≠ .ok)) ∧
-    (¬ Rule g b.s (b.links.filter (·.1 ≠ n) ++ [(n, l)]) →
+    (¬ Rule g b.s b.nodeStat (b.links.filter (·.1 ≠ n) ++ [(n, l)]) →
       (∃ b', (addChild h g { dyn := true, dir := .basic b } n l).1.dir = .basic b' ∧
         (addChild h g { dyn := true, dir := .basic b } n l).2 = .ok ∧
-        b'.links = b.links.filter (·.1 ≠ n) ++ [(n, l)] ∧ b'.s = b.s ∧ BasicExact g b') ∨
+        b'.links = b.links.filter (·.1 ≠ n) ++ [(n, l)] ∧ b'.s = b.s ∧ b'.nodeStat = b.nodeStat ∧ BasicExact g b') ∨
       (b.s.effThr g = 0 ∧ (addChild h g { dyn := true, dir := .basic b } n l).2 = .maxlinks ∧
         (addChild h g { dyn := true, dir := .basic b } n l).1 = { dyn := true, dir := .basic b })) := by
   have hiff := needsHamt_iff_rule g b n l hx
@@ -226,9 +226,9 @@ theorem rule_step (h : Name → List Byte) (g : Globals) (b : Basic) (n : Name) 
     | ok b' =>
       rw [hadd] at hal
       simp only at hal ⊢
-      obtain ⟨hl, hs, hnd, htot, hest⟩ := hal
+      obtain ⟨hl, hs, hns, hnd, htot, hest⟩ := hal
       left
-      refine ⟨b', by trivial, by trivial, hl, hs, hnd, htot, by rw [hs]; exact hest, ?_⟩
+      refine ⟨b', by trivial, by trivial, hl, hs, hns, hnd, htot, by rw [hs, hns]; exact hest, ?_⟩
       intro hpos
       rw [hs] at hpos
       -- the count clause of the rule is false
